@@ -216,10 +216,10 @@ func leanInt(n int64) string {
 }
 
 var aopNames = map[token.Token]string{token.ADD: ".add", token.SUB: ".sub", token.MUL: ".mul", token.REM: ".mod", token.AND: ".band",
-	token.XOR: ".bxor", token.OR: ".bor", token.SHR: ".shr", token.SHL: ".shl"}
+	token.XOR: ".bxor", token.OR: ".bor", token.SHR: ".shr", token.SHL: ".shl", token.QUO: ".div"}
 var copNames = map[token.Token]string{token.LSS: ".lt", token.LEQ: ".le", token.GTR: ".gt", token.GEQ: ".ge", token.EQL: ".eq", token.NEQ: ".ne"}
 var assignOps = map[token.Token]token.Token{token.ADD_ASSIGN: token.ADD, token.SUB_ASSIGN: token.SUB, token.MUL_ASSIGN: token.MUL, token.REM_ASSIGN: token.REM,
-	token.AND_ASSIGN: token.AND, token.XOR_ASSIGN: token.XOR, token.OR_ASSIGN: token.OR, token.SHR_ASSIGN: token.SHR, token.SHL_ASSIGN: token.SHL}
+	token.QUO_ASSIGN: token.QUO, token.AND_ASSIGN: token.AND, token.XOR_ASSIGN: token.XOR, token.OR_ASSIGN: token.OR, token.SHR_ASSIGN: token.SHR, token.SHL_ASSIGN: token.SHL}
 
 // want: the Go type the context expects ("error" decides what `nil` is)
 func (c *irCtx) expr(e ast.Expr, want string) string {
